@@ -11,6 +11,19 @@ for f in sorted(glob.glob(os.path.join(ROOT, "seeded", "*", "meta.json"))):
     if not summary and os.path.exists(notes):
         txt = [l.strip() for l in open(notes).read().splitlines() if l.strip() and not l.startswith("#")]
         summary = " ".join(txt[:2])[:260]
+        # the agents' notes have a section on what the change needs in order to manifest
+        lines = open(notes).read().splitlines()
+        for i, l in enumerate(lines):
+            if l.startswith("#") and ("manifest" in l.lower() or "needed" in l.lower() or "needs" in l.lower()):
+                body = []
+                for l2 in lines[i + 1:]:
+                    if l2.startswith("#"):
+                        break
+                    if l2.strip():
+                        body.append(l2.strip())
+                if body:
+                    summary = summary + " NEEDS: " + " ".join(body)[:420]
+                break
     rows.append((m["id"], m["breaks_property"], "yes" if m.get("confirmed") else "NO",
                  "yes" if m.get("caught_by_target_check") else "no",
                  ", ".join(m.get("caught_by", [])) or "-", (m.get("needs") or summary or "").replace("|", "/")))
